@@ -103,7 +103,7 @@ pub fn map_collect_btreemap<I: Iterator, K: Ord, V, F: FnMut(I::Item) -> (K, V)>
     ensures
         exists|vals: Seq<(K, V)>| #![auto] vals.len() == it.remaining().len()
             && (forall|k: int| 0 <= k < vals.len() ==> call_ensures(f, (it.remaining()[k],), #[trigger] vals[k]))
-            && r@.dom() == vals.map_values(|p: (K, V)| p.0).to_set()
+            && (forall|key: K| #[trigger] r@.contains_key(key) <==> exists|k: int| 0 <= k < vals.len() && (#[trigger] vals[k]).0 == key)
             && (forall|k: int| 0 <= k < vals.len() && (forall|j: int| k < j < vals.len() ==> vals[j].0 != vals[k].0) ==> r@[#[trigger] vals[k].0] == vals[k].1),
 { it.map(f).collect() }
 
@@ -116,6 +116,9 @@ pub assume_specification<T: Clone>[ <[T]>::to_vec ](s: &[T]) -> (r: Vec<T>)
 
 pub assume_specification<T, A: core::alloc::Allocator>[ <Vec<T, A> as AsRef<[T]>>::as_ref ](v: &Vec<T, A>) -> (r: &[T])
     ensures r@ == v@;
+
+pub assume_specification<'a, T: Copy>[ Option::<&'a T>::copied ](o: Option<&'a T>) -> (r: Option<T>)
+    ensures r == (match o { Some(x) => Some(*x), None => None::<T> });
 
 // BTreeSet::last = the greatest element
 pub assume_specification<T: Ord, A: core::alloc::Allocator + Clone>[ BTreeSet::<T, A>::last ](s: &BTreeSet<T, A>) -> (r: Option<&T>)
